@@ -109,13 +109,13 @@ def keyLegal (ctx : Ctx) (k : Key) : Bool :=
   | .tap => !(100 ≤ k && k < 200)
   | _ => k < 200
 
-/-- the part of `Miniscript::from_ast` that depends on the keys: `Ctx::check_pk` on `pk_k` and
-on the keys of `multi`/`multi_a` (NOT on `pk_h`), and the script size limit, as in
+/-- the part of `Miniscript::from_ast` that depends on the keys: `Ctx::check_pk` on `pk_k`,
+`pk_h` (since 4cd8ebfa) and on the keys of `multi`/`multi_a`, and the script size limit, as in
 `check_global_consensus_validity` / `check_global_policy_validity` (`ext.pk_cost` against 520 in
 Legacy, 3600 in Segwitv0, 10000 in Bare; the type rules do not depend on keys) -/
 def chkCtx (env : KeyEnv) (ctx : Ctx) (ms : Ms) : Bool :=
   (match ms with
-   | .pkK k => keyLegal ctx k
+   | .pkK k | .pkH k => keyLegal ctx k
    | .multi _ ks | .sortedMulti _ ks => ctx == .tap || ks.all (keyLegal ctx)
    | .multiA _ ks | .sortedMultiA _ ks => ctx != .tap || ks.all (keyLegal ctx)
    | _ => true)
